@@ -23,10 +23,11 @@ import (
 type faultKind int
 
 const (
-	faultNone   faultKind = iota
-	faultAbsent           // Get returns "not found"
-	faultError            // Get returns an I/O error
-	faultGarble           // Get returns a block that does not decode as an entry
+	faultNone    faultKind = iota
+	faultAbsent            // Get returns "not found"
+	faultError             // Get returns an I/O error
+	faultGarble            // Get returns a block that does not decode as an entry
+	faultTimeout           // Get fails with the store's OWN deadline error (wraps context.DeadlineExceeded) although the caller's context is alive
 )
 
 type memDag struct {
@@ -141,6 +142,8 @@ func (m *memDag) Get(ctx context.Context, c cid.Cid) (ipld.Node, error) {
 		return nil, ipld.ErrNotFound{Cid: c}
 	case faultError:
 		return nil, fmt.Errorf("injected i/o error for %s", c)
+	case faultTimeout:
+		return nil, fmt.Errorf("provider search for %s gave up: %w", c, context.DeadlineExceeded)
 	case faultGarble:
 		// a well-formed CBOR block that is not an entry: the text string "garbage"
 		n, err := cbornode.WrapObject("garbage", 0x12, -1)
